@@ -88,9 +88,11 @@ Definition fx_del (var : Z) (f : fixups) : fixups := filter (λ p, p.1 ≠ var) 
 (** [EntityFixup.__init__(list)]: values whose index is acceptable and not seen yet are stored under their
     variable (a later value for the same variable replaces the earlier one); the others are re-inserted with
     [fx_set].  [accept] is the acceptance test read from the source ([fix.id not in used_indexes], with or
-    without a positivity test). *)
+    without a positivity test); [defer] says whether the rejected values are re-inserted after the whole list
+    has been scanned (the code's second loop over [extra_vals]) or immediately, inside the first loop. *)
 Section fxinit.
   Variable require_positive : bool.
+  Variable defer : bool.
   Definition accept (i : Z) (seen : list Z) : bool :=
     (if require_positive then bool_decide (0 < i) else true) && bool_decide (i ∉ seen).
   Fixpoint fx_init_pass (l : list (Z * Z)) (seen : list Z) (f : fixups) (extra : list Z) : fixups * list Z :=
@@ -98,7 +100,8 @@ Section fxinit.
     | [] => (f, extra)
     | (v, i) :: r =>
         if accept i seen then fx_init_pass r (i :: seen) (filter (λ p, p.1 ≠ v) f ++ [(v, i)]) extra
-        else fx_init_pass r seen f (extra ++ [v])
+        else if defer then fx_init_pass r seen f (extra ++ [v])
+        else fx_init_pass r seen (fx_set v f) extra
     end.
   Definition fx_init (l : list (Z * Z)) : fixups :=
     let '(f, extra) := fx_init_pass l [] [] [] in fold_left (λ f v, fx_set v f) extra f.
